@@ -407,7 +407,7 @@ class CollectRun:
 
     def batch(self, name, lines, flavour="asan", args=(), **kw):
         if flavour not in ("hash",) and not args:       # batches that need special harness arguments stay with their own check
-            self.lines += [l for l in lines if not l.startswith("@")]
+            self.lines += [l for l in lines if not l.startswith("@") and len(l) < 30000]     # very large instances stay with their own check (watchdog)
         return []
 
 
